@@ -233,14 +233,14 @@ def main(run):
             sweep.append("uspl 0 %s %s" % (caps, G.tok(b"coap://" + s)))
             sweep.append("uspl 0 %s %s" % (caps, G.tok(b"/" + s)))
             sweep.append("uspl 1 %s %s" % (caps, G.tok(b"http://[" + s)))
-        if len(s) <= 2:
-            for bl in (0, 1, 2, 3, 4, 5):
+        if len(s) <= 3:
+            for bl in (0, 1, 2, 3, 4, 5, 6, 7):
                 sweep.append("upath %d %s" % (bl, h))
                 sweep.append("uquery %d %s" % (bl, h))
     run.cov["leaf_sweep"] = {"cases": len(sweep), "exhaustive": True,
                              "exhaustive_over": "all strings over 'a./%%2eE?#&:[' of length <= %d as "
                              "path and query (buffer 64), <= %d through the optlist functions and as "
-                             "URI tails, <= 2 with every buffer size 0..5" % (n_pq, n_all)}
+                             "URI tails, <= 3 with every buffer size 0..7" % (n_pq, n_all)}
     base_lines += sweep
     asan_lines += [ln for ln in sweep if len(G.untok(ln.split()[-1])) <= (n_pq if not quick else 3) + 8]
 
@@ -249,26 +249,39 @@ def main(run):
         for cmd in ("ugetp", "ugetq"):
             base_lines.append("%s %02x" % (cmd, b))
             base_lines.append("%s 61%02x %02x62" % (cmd, b, b))
-    # generated cases
+    # generated cases; buffer sizes are aimed at the exact need the specification computes
     n = 4000 if quick else 120000
+    pstr = [G.gen_path(r) for _ in range(n * 3 // 10)]
+    qstr = [G.gen_path(r, query=True) for _ in range(n * 2 // 10)]
+    needs, _ = vlib.run_lines_robust(model, ["spec_path " + G.tok(s) for s in pstr] +
+                                     ["spec_query " + G.tok(s) for s in qstr])
+    needs = [int(x.rsplit("need=", 1)[1]) for x in needs]
+
+    def buflen_for(need, s, query):
+        x = r.random()
+        if x < 0.5:
+            return max(0, need + r.choice([-1, 0, 0, 1]))
+        if x < 0.6:
+            return r.choice([0, 1, 2, 3, 4])
+        if x < 0.8:
+            return need + r.choice([2, 7, 300])
+        return G.gen_buflen(r, s, query)
+
     gen = []
-    for i in range(n):
-        k = i % 10
-        if k < 3:
-            s = G.gen_path(r)
-            gen.append("upath %d %s" % (G.gen_buflen(r, s), G.tok(s)))
-            if k == 0:
-                gen.append("upol %d 11 %s" % (r.choice([0, 0, 1, 2, 3]), G.tok(s)))
-        elif k < 5:
-            s = G.gen_path(r, query=True)
-            gen.append("uquery %d %s" % (G.gen_buflen(r, s, True), G.tok(s)))
-            if k == 3:
-                gen.append("uqol %d 15 %s" % (r.choice([0, 1, 2]), G.tok(s)))
-        elif k < 8:
-            gen.append("uspl %d %s %s" % (r.random() < 0.25, caps, G.tok(G.gen_uri(r))))
-        else:
-            segs = G.gen_seglist(r)
-            gen.append("%s %s" % (r.choice(["ugetp", "ugetq"]), " ".join(G.tok(x) for x in segs)))
+    for i, s in enumerate(pstr):
+        gen.append("upath %d %s" % (buflen_for(needs[i], s, False), G.tok(s)))
+        if i % 3 == 0:
+            gen.append("upol %d 11 %s" % (r.choice([0, 0, 1, 2, 3]), G.tok(s)))
+    for i, s in enumerate(qstr):
+        gen.append("uquery %d %s" % (buflen_for(needs[len(pstr) + i], s, True), G.tok(s)))
+        if i % 2 == 0:
+            gen.append("uqol %d 15 %s" % (r.choice([0, 1, 2]), G.tok(s)))
+    for i in range(n * 3 // 10):
+        gen.append("uspl %d %s %s" % (r.random() < 0.25, caps, G.tok(G.gen_uri(r))))
+    for i in range(n * 2 // 10):
+        segs = G.gen_seglist(r)
+        gen.append("%s %s" % (r.choice(["ugetp", "ugetq"]), " ".join(G.tok(x) for x in segs)))
+    r.shuffle(gen)
     gen = [ln.replace("True", "1").replace("False", "0") for ln in gen]
     base_lines += gen
     asan_lines += gen[: (1500 if quick else len(gen))]
